@@ -14,10 +14,7 @@ use std::{
 };
 
 #[cfg(feature = "bitvec")]
-use bitvec::{
-    field::BitField, order::BitOrder, slice::BitSlice, store::BitStore,
-    vec::BitVec,
-};
+use bitvec::{order::BitOrder, store::BitStore, vec::BitVec};
 use dashmap::DashMap;
 #[cfg(feature = "smallvec")]
 use smallvec::{Array, SmallVec};
@@ -660,28 +657,26 @@ impl<T: Array> Decode for SmallVec<T> where T::Item: Decode {
 }
 
 #[cfg(feature = "bitvec")]
-impl<T: Decode + BitStore, O: BitOrder> Decode for BitVec<T, O>
-where
-    BitSlice<T, O>: BitField,
-{
+impl<T: Decode + BitStore, O: BitOrder> Decode for BitVec<T, O> {
     fn decode<D: Decoder + ?Sized>(
         decoder: &mut D,
-        _plugin: &Plugin,
-        _session: &mut Session,
+        plugin: &Plugin,
+        session: &mut Session,
     ) -> io::Result<Self> {
-        use bitvec::{mem::bits_of, vec::BitVec};
-        use std::io::Write;
+        use bitvec::mem::bits_of;
 
+        // Mirror of `Encode`: the length in bits, then every storage word
+        // through `T::decode`.
         let len = decoder.read_usize()?;
-        let number_of_bytes = len.div_ceil(bits_of::<u8>());
-        let byte_vec = decoder.read_raw_bytes(number_of_bytes)?;
-        let mut vec = BitVec::new(); // Write will resize as needed.
-        let written = vec.write(byte_vec.as_slice())?;
-        assert!(
-            written == number_of_bytes,
-            "Should write the same number of bytes ({written}) as had been stored ({number_of_bytes})"
-        );
-        vec.truncate(len); // Ensure trailing bits aren't added.
+        let words = len.div_ceil(bits_of::<T::Mem>());
+        let mut raw = Vec::new();
+        for _ in 0..words {
+            raw.push(T::decode(decoder, plugin, session)?);
+        }
+        let mut vec = Self::try_from_vec(raw).map_err(|_| {
+            io::Error::new(io::ErrorKind::InvalidData, "bit vector too long")
+        })?;
+        vec.truncate(len);
         Ok(vec)
     }
 }
